@@ -1,0 +1,56 @@
+//go:build verif
+
+// Verification hooks for property C16 (claim-id sessions): read-only wrappers
+// that export unexported helpers of claim_mint.go / claim_session.go /
+// inherited_session.go to the /verif harness.  Compiled only with -tags verif.
+
+package security
+
+import (
+	"time"
+
+	"github.com/PelicanPlatform/classad/classad"
+)
+
+// VerifC16DeriveSessionKey exposes deriveSessionKey.
+func VerifC16DeriveSessionKey(secret string, keyLen int) ([]byte, error) {
+	return deriveSessionKey(secret, keyLen)
+}
+
+// VerifC16DeriveClaimKeyInfo exposes deriveClaimKeyInfo.
+func VerifC16DeriveClaimKeyInfo(policy *classad.ClassAd, secret string) (*KeyInfo, error) {
+	return deriveClaimKeyInfo(policy, secret)
+}
+
+// VerifC16ShortVersion exposes shortVersion.
+func VerifC16ShortVersion(full string) string { return shortVersion(full) }
+
+// VerifC16ClaimExpiration exposes claimExpiration.
+func VerifC16ClaimExpiration(policy *classad.ClassAd, fallback time.Duration) time.Time {
+	return claimExpiration(policy, fallback)
+}
+
+// VerifC16RandomHexKey exposes randomHexKey.
+func VerifC16RandomHexKey(nbytes int) (string, error) { return randomHexKey(nbytes) }
+
+// VerifC16SecretLen is the number of random bytes in a minted claim secret.
+const VerifC16SecretLen = secSessionKeyLengthV9
+
+// VerifC16CommandMap returns a copy of the cache's command map.
+func VerifC16CommandMap(c *SessionCache) map[string]string {
+	c.mu.RLock()
+	defer c.mu.RUnlock()
+	out := make(map[string]string, len(c.commandMap))
+	for k, v := range c.commandMap {
+		out[k] = v
+	}
+	return out
+}
+
+// VerifC16Entry returns the stored entry for id whether or not it has expired.
+func VerifC16Entry(c *SessionCache, id string) (*SessionEntry, bool) {
+	c.mu.RLock()
+	defer c.mu.RUnlock()
+	e, ok := c.sessions[id]
+	return e, ok
+}
